@@ -31,6 +31,9 @@ pub enum Step {
     Guard(usize, Vec<GuardOp>),
     /// read guard taken; try_write must fail, try_read must succeed; released within the step
     ReadHold(usize),
+    /// the handle counts are read while `.1` read guards taken through the owner and one read guard
+    /// of each of the first `.2` live subscribers are alive (nothing is pending: a quiescent moment)
+    CountsGuarded(usize, u8, u8),
     Get(usize),
     Read(usize),
     CloneOwner(usize),
@@ -79,6 +82,7 @@ impl Step {
             UpdateIf(_, _, b) => 6 + *b as u64 * 50,
             Guard(_, ops) => 7 + 64 * ops.len() as u64,
             ReadHold(_) => 8,
+            CountsGuarded(_, a, b) => 35 + 64 * (*a as u64 * 4 + *b as u64),
             Get(_) => 9,
             Read(_) => 10,
             CloneOwner(_) => 11,
